@@ -13,8 +13,12 @@ props = [json.loads(l) for l in open(os.path.join(VERIF, 'properties.jsonl'))]
 checks = []
 na = []
 hooks_commits = []
+ready = set(open(os.path.join(VERIF, 'tools', 'ready.txt')).read().split())
 for p in props:
     pid = p['id']
+    if pid not in ready:
+        na.append({'property_id': pid, 'reason': 'check still under construction in this round (plan: DESIGN.md section 4 %s)' % pid})
+        continue
     path = os.path.join(VERIF, 'harness', 'props', pid.lower() + '.py')
     if not os.path.exists(path):
         na.append({'property_id': pid, 'reason': 'not built yet in this round (planned: see DESIGN.md section 4 %s)' % pid})
